@@ -4,6 +4,7 @@
 // the drain / spin loops) order the critical sections (writer->reader, reader->writer, writer->writer).
 #include <dispenso/rw_lock.h>
 #include "vf.h"
+#include "probe.h"
 
 #ifndef VF_KIND
 #define VF_KIND 0
@@ -38,6 +39,11 @@ static void try_reader(void*) {
 }
 
 extern "C" void vf_main() {
+  {
+    VfAtomic noPreempt;
+    warm_atomic(L.lockWord());
+    warm_probe(&g_data);
+  }
 #if VF_KIND == 0
   vf_spawn(writer, nullptr);
   vf_spawn(reader, nullptr);
